@@ -71,6 +71,10 @@ SENSITIVITY = [
     "run_sweep_iter yields results in reversed resolver order",
     "ProcessorSampler reassembles batches in reversed order",
     "ValidatingSampler batch forwards first repetition count only",
+    "digits_to_int accumulates numpy scalars (reverts fix 3e9aa07)",
+    "zero-repetition records shaped (0,1,1) (reverts fix bec16e6)",
+    "measurements caches a partial mapping (reverts fix 78ab3f1)",
+    "measurements view takes the last instance of a repeated key",
 ]
 
 DTYPES = {"bool": np.bool_, "uint8": np.uint8, "int8": np.int8, "int64": np.int64}
